@@ -186,10 +186,8 @@ SE = ["Lexer::dispatch_mode_str_expr", "Lexer::lex_str_expr_text", "Lexer::lex_d
 SES = ["Lexer::lex_macro_identifier -> unreachable; Lexer::lex_macro_var_expr -> false (first char assumed not to start a macro trigger)"] + HEXS
 SEP = COMMON + ["C06", "C07", "C10", "C11", "C16"]
 LXH("lx_str_expr_text_plain_k3", SEP, "thorough", "plain literal: 'a' + <= 2 code points", SE, 3600, stubs=SES + XID, contexts=["quote"], mem=20)
-LXH("lx_str_expr_text_plain_k4", SEP, "thorough", "plain literal: 'a' + <= 3 code points", SE, 7200, stubs=SES + XID, contexts=["quote"], mem=24)
 LXH("lx_str_expr_text_expr_k3", SEP, "thorough", "genuine string expression (a macro variable or hidden token precedes): 'a' + <= 2 code points", SE, 3600, stubs=SES + XID, contexts=["str_expr"], mem=20)
 LXH("lx_str_expr_quote_plain_k3", SEP, "thorough", "plain literal: '\"' + <= 2 code points (empty literal with suffix, or escaped quote first)", SE, 3600, stubs=SES + XID, fixed='"', contexts=["quote"], mem=20)
-LXH("lx_str_expr_quote_plain_k4", SEP, "thorough", "plain literal: '\"' + <= 3 code points", SE, 7200, stubs=SES + XID, fixed='"', contexts=["quote"], mem=24)
 LXH("lx_str_expr_quote_expr_k3", SEP, "thorough", "genuine string expression: '\"' + <= 2 code points (closing quote with suffix, or escaped quote first)", SE, 3600, stubs=SES + XID, fixed='"', contexts=["str_expr"], mem=20)
 LXH("lx_str_expr_percent_k3", COMMON + ["C06", "C07", "C10"], "thorough", "plain literal: '%' (no name start after it) + <= 2 code points", SE, 3600, stubs=SES + XID, fixed="%", contexts=["quote"], mem=20)
 LXH("lx_str_expr_amp_k3", COMMON + ["C06", "C07", "C10"], "thorough", "genuine string expression: '&' run that is no macro trigger, <= 3 code points", SE, 3600, stubs=SES + XID, fixed="&", contexts=["str_expr"], mem=20)
@@ -199,7 +197,6 @@ LXH("lx_double_quoted_literal_direct", ["C01", "C02", "C03", "C04", "C06", "C07"
 LXH("lx_str_expr_start", ["C01", "C02", "C03", "C04", "C06", "C10"], "quick", "'\"' + <= 1 code point", ["Lexer::lex_string_expression_start"], 300, fixed='"', contexts=["default"], mem=8)
 DLF = ["Lexer::lex_datalines", "Cursor::advance_by"]
 LXH("lx_datalines_ascii_n1", ["C01", "C02", "C03", "C04", "C06", "C09", "C10", "C11", "C15", "C17"], "quick", "'cArds' in the constant prefix + exactly 1 ASCII character (all byte positions constant); look-behind none / ';' / other, optional hidden token; non-zero base offset", DLF, 600, fixed="cArds", contexts=["default"], mem=10)
-LXH("lx_datalines_direct_k2", COMMON + ["C06", "C10", "C11", "C15"], "thorough", "'cArds' consumed + <= 2 code points; look-behind none / ';' / other, optional hidden token", DLF, 7200, cfgs=("nodebug",), fixed="cArds", contexts=["default"], mem=28)
 TDC = ["every sub-lexer of the dispatcher (quotes, comments, blanks, macro variable / call / comment, the mode's text scanner) -> recording stand-ins; lex_macro_call's outcome chosen by the harness; the scanners have their own harnesses"]
 for nm, fn, ctx in (("semi_text", "dispatch_macro_semi_term_text_expr", "semi_text"), ("stat_opts", "dispatch_macro_stat_opts_text_expr", "stat_opts"), ("arg_value", "dispatch_macro_call_arg_value", "arg_value"), ("str_call", "dispatch_macro_str_quoted_expr", "str_call")):
     LXH(f"lx_{nm}_classifier", COMMON + ["C06", "C13", "C14"], "quick", "<= 4 code points, first char any; pnl any u32, flags / mask symbolic", [f"Lexer::{fn}"], 900, stubs=TDC + XID, contexts=[ctx], mem=10)
@@ -324,7 +321,7 @@ def primary_props(h, cfg):
     return props
 
 
-QUICK_BUDGET_S = 5000  # cpu-seconds of queries per property (about 6.5 min of wall time at 13 jobs)
+QUICK_BUDGET_S = 4200  # cpu-seconds of queries per property (about 5.5 min of wall time at 13 jobs)
 SECONDARY_MAX_S = 200  # a query that fills the budget must be cheap
 
 
